@@ -15,6 +15,8 @@ pub enum Ev {
     Pop { c: usize, item: String, seq: u64 },
     /// `n` oldest items of `from` appended to `to`
     Move { from: usize, to: usize, n: usize },
+    /// an item was destroyed inside a container operation (never handed to anybody)
+    Dropped { c: usize, item: String },
 }
 
 #[derive(Debug, Clone)]
@@ -159,6 +161,49 @@ impl<T: Debug> Worker<T> {
         }
         r
     }
+    pub fn extend<I: IntoIterator<Item = T>>(&self, iter: I) {
+        for item in iter {
+            if self.push(item).is_err() {
+                break;
+            }
+        }
+    }
+    /// passthrough of st3's `drain`: items the caller takes out of the iterator are logged as
+    /// pops; items claimed but not consumed are dropped by st3 and logged as dropped
+    pub fn drain<C: FnMut(usize) -> usize>(&self, count_fn: C) -> Result<Drain<'_, T>, st3::StealError> {
+        tick();
+        self.inner.drain(count_fn).map(|d| Drain { inner: d, cid: self.cid })
+    }
+}
+
+pub struct Drain<'a, T: Debug> {
+    inner: st3::fifo::Drain<'a, T>,
+    cid: usize,
+}
+
+impl<T: Debug> Iterator for Drain<'_, T> {
+    type Item = T;
+    fn next(&mut self) -> Option<T> {
+        tick();
+        let r = self.inner.next();
+        if let Some(x) = &r {
+            shadow_pop(self.cid, format!("{x:?}"));
+        }
+        r
+    }
+}
+
+impl<T: Debug> Drop for Drain<'_, T> {
+    fn drop(&mut self) {
+        // whatever is still claimed is dropped by st3: it leaves the container for good
+        while let Some(x) = self.inner.next() {
+            let d = format!("{x:?}");
+            with(|c| {
+                let _ = c.containers[self.cid].items.pop_front();
+                c.events.push(Ev::Dropped { c: self.cid, item: d });
+            });
+        }
+    }
 }
 
 impl<T: Debug> Stealer<'_, T> {
@@ -207,6 +252,14 @@ impl<T: Debug> Injector<T> {
         let d = format!("{item:?}");
         self.inner.push(item);
         shadow_push(self.cid, d);
+    }
+    pub fn is_empty(&self) -> bool {
+        tick();
+        self.inner.is_empty()
+    }
+    pub fn len(&self) -> usize {
+        tick();
+        self.inner.len()
     }
     pub fn steal(&self) -> Steal<T> {
         tick();
@@ -276,6 +329,26 @@ impl<V: Adopt> SkipMap<i64, V> {
     pub fn iter(&self) -> crossbeam_skiplist::map::Iter<'_, i64, V> {
         tick();
         self.inner.iter()
+    }
+    pub fn get(&self, key: &i64) -> Option<Entry<'_, i64, V>> {
+        tick();
+        self.inner.get(key)
+    }
+    pub fn front(&self) -> Option<Entry<'_, i64, V>> {
+        tick();
+        self.inner.front()
+    }
+    pub fn back(&self) -> Option<Entry<'_, i64, V>> {
+        tick();
+        self.inner.back()
+    }
+    pub fn is_empty(&self) -> bool {
+        tick();
+        self.inner.is_empty()
+    }
+    pub fn len(&self) -> usize {
+        tick();
+        self.inner.len()
     }
 }
 
